@@ -167,7 +167,7 @@ def headOf (f : Expr) (nargs : Nat) : Head :=
   | .ident x =>
     if x.name = "&&" then (if nargs = 2 then .and_ else .otherPrim)
     else if x.name = "||" then (if nargs = 2 then .or_ else .otherPrim)
-    else if x.name.startsWith "#" then
+    else if x.name.toList.head? = some '#' then
       (match primOfName x.name with
        | some op => if nargs = 2 then .prim op else .otherPrim
        | none => .otherPrim)
